@@ -280,9 +280,20 @@ def rule_E4(run_, pkg, an):
                        "%s.%s hands out %s by reference; the accumulator adds into the first contribution in place" % (cname, m, ", ".join(bad)),
                        where="%s:%d" % (fn._gs_module, fn.lineno))
     # the accumulator must only mutate what it was given (its own dictionaries)
+    # decided on the translated code (however the accumulation is organised): assembling the linear system of a graph of the
+    # package's own edge kinds -- twice, and again after re-weighting -- leaves every edge's measurement, offset and information
+    # matrix as it was and yields the reference system each time
+    from ..assembly import real_edges_obligation
+    from ..algebra import run_tasks, record
+    gfn = pkg.method("Graph", "_calc_chi2_gradient_hessian") if pkg.lookup("Graph", "_calc_chi2_gradient_hessian") else pkg.method("Graph", "optimize")
+    tasks = [("C15-E4/assembly-leaves-edges-unchanged/%s" % kind, "C15-E4-accumulator-footprint", real_edges_obligation(kind, (), True),
+              "%s:%d" % (gfn._gs_module, gfn.lineno)) for kind in ("R2", "SE2")]
+    tasks = [t for t in tasks if run_.wants(t[0])]
+    record(run_, tasks, run_tasks(pkg, tasks))
     upd = pkg.own_method_alias("_Chi2GradientHessian", "update")
     if upd is None:
-        run_.error("anchor vanished: _Chi2GradientHessian.update")
+        run_.note("no method _Chi2GradientHessian.update: the syntactic footprint rule is skipped (the accumulation is decided by the "
+                  "translated assembly above)")
         return
     for ev in an.effects(upd):
         ok = ev.path[0] == an.get(upd).params[0]
